@@ -11,7 +11,7 @@ from collections.abc import Iterable
 from datetime import UTC, datetime, timedelta
 from typing import TYPE_CHECKING
 
-from pynenc.trigger.base_trigger import BaseTrigger
+from pynenc.trigger.base_trigger import UNCONDITIONAL, BaseTrigger
 from pynenc.trigger.conditions import ConditionContext, TriggerCondition, ValidCondition
 
 if TYPE_CHECKING:
@@ -165,7 +165,7 @@ class MemTrigger(BaseTrigger):
         self,
         condition_id: "ConditionId",
         execution_time: datetime,
-        expected_last_execution: datetime | None = None,
+        expected_last_execution: "datetime | None | object" = UNCONDITIONAL,
     ) -> bool:
         """
         Store the timestamp of the last execution of a cron condition in memory.
@@ -184,7 +184,7 @@ class MemTrigger(BaseTrigger):
             # If we expect a specific last execution time and it doesn't match,
             # it means someone else updated it
             if (
-                expected_last_execution is not None
+                expected_last_execution is not UNCONDITIONAL
                 and current != expected_last_execution
             ):
                 return False
